@@ -253,6 +253,7 @@ pub fn scenario_for(prop: &str) -> &'static str {
 		"C08" => "reject",
 		"C09" => "reindex",
 		"C10" => "tree",
+		"C11" => "treelock",
 		"C12" => "power",
 		"C13" => "logfuzz",
 		"C14" => "struct",
@@ -283,7 +284,7 @@ fn kinds_for(scenario: &str, r: &mut Rng) -> Vec<ColKind> {
 			"sizes" => *r.pick(&[ColKind::Hash, ColKind::Btree, ColKind::HashRc, ColKind::Hash]),
 			"rc" => if i == 0 { ColKind::HashRc } else { *r.pick(&[ColKind::HashRc, ColKind::BtreeRc, ColKind::Hash]) },
 			"reindex" => if i == 0 { ColKind::HashUniform } else { *r.pick(&[ColKind::HashUniform, ColKind::Hash]) },
-			"tree" => if i == 0 { tree_kind(r) } else { *r.pick(&[ColKind::Hash, ColKind::Btree]) },
+			"tree" | "treelock" => if i == 0 { tree_kind(r) } else { *r.pick(&[ColKind::Hash, ColKind::Btree]) },
 			_ => {
 				if r.chance(1, 8) {
 					tree_kind(r)
@@ -459,7 +460,7 @@ fn gen_ops(r: &mut Rng, cfg: &RunCfg, tier: Tier, big_max: u32) -> Vec<Op> {
 		"logfuzz" => w.logfuzz = 6,
 		"ioerr" => w.ioerr = 8,
 		"reject" => w.reject = 10,
-		"tree" => w.locktree = 3,
+		"treelock" => w.locktree = 5,
 		"admin" => w.admin = 6,
 		_ => {},
 	}
